@@ -1,23 +1,34 @@
 /-
   C01 — Each implemented instruction updates registers and memory per the Z80 specification.
 
-  Full-strength statement (kept visible): for every instruction i and state x,
-      RM (exec i len x) = RM (Spec.apply i len x)
-  where `Spec.apply` is a second, independent semantics of all ~60 instruction classes written as
-  the manual's parallel assignments, and RM = registers (without F, PC, R) + memory.  That second
-  semantics is NOT written for every class.  What is proved (hence `_partial` on the summary):
-    * C01_frame_regs : every instruction, every register outside its specified footprint: unchanged;
-    * C01_frame_mem / C01_frame_block : every instruction, every address outside the specified
-      write set: unchanged (block loads: outside the destination range);
-    * value laws, as parallel assignments over the state before the step, for the load, stack,
-      exchange, block and read-modify-write classes below; the arithmetic result laws are C02's
-      theorems (result = specification for all operands), the 16-bit pair laws are C09's.
-  The remaining gap (value laws of the classes not listed) rests on the correspondence sweep over
-  all 1,792 encodings.
+  Full-strength statement: for every instruction i and state x,
+      RM (exec i len x) = RM (Spec.apply i x)
+  where RM = the registers C01 names (A B C D E H L IXH IXL IYH IYL I SP and the alternate bank, i.e.
+  everything but F, PC, R) + the whole bus, and `Spec.effects` (Z80/Spec/Effects.lean) is a second,
+  independent semantics: the manual's operation line of each class as parallel assignments to named
+  registers plus byte stores, with arithmetic from `Spec.Arith` (natural numbers).
+
+    * C01_full            : that equation for every instruction with a single defined operation
+                            (`Spec.defined`: all but the four repeating block instructions, DAA on an
+                            accumulator outside the manual's table, and two non-encodable forms);
+    * C01_decoded_defined : every instruction the decoder can produce is encodable in that sense, so
+                            `defined` only excludes the repeats and DAA outside its table;
+    * C01_block_step, C01_repeat : the repeating block instructions are their single-step form
+                            (specified by C01_full) iterated; the count is C19's;
+    * C01_frame_*         : the footprint reading (registers / cells outside the specified write set
+                            are unchanged), also for the repeats;
+    * the older per-class value laws (C01_ld8 ... C01_add_idx) are kept: they are the same facts in the
+      model's own vocabulary.
+  Not covered by any C01 theorem: the value DAA leaves in A when A is not the result of a BCD
+  operation (the manual defines none; the sweep compares the implementation with the model there).
 -/
 import Z80.Lemmas.Frame
 import Z80.Lemmas.Pc
+import Z80.Lemmas.EffectsSound
+import Z80.Lemmas.Tables3
 import Z80.Props.C02
+import Z80.Props.C19
+import Z80.Lemmas.Plain
 namespace Z80
 open Spec
 
@@ -254,16 +265,94 @@ theorem C01_add_idx (src : R16) (len : UInt16) (x : Arch) :
     rw [show (x.reg.setIY (Alu.add16 x.reg.getIY (x.reg.get16 src) x.reg.flags).1).getIY = _ from mkWord_hi_lo _]
     exact this
 
-/-- summary of the proved part of C01 (see the header for what is missing) -/
-theorem C01_partial (i : Instr) (len : UInt16) (x : Arch) :
+/-- summary of the footprint part of C01 -/
+theorem C01_frame (i : Instr) (len : UInt16) (x : Arch) :
     (∀ r, r ∉ regsWritten i → getReg (exec i len x) r = getReg x r) ∧
     (isBlockLoad i = false → ∀ addr, addr ∉ addrsWritten i x → (exec i len x).bus.readByte addr = x.bus.readByte addr) :=
   ⟨fun r h => frame_regs i len x r h, fun hb addr h => frame_mem i len x addr hb h⟩
+
+/-! ### the full statement against the second semantics -/
+
+/-- every register C01 names and the whole bus after the step are what the manual's operation says,
+    computed from the state before the step -/
+theorem C01_full (i : Instr) (len : UInt16) (x : Arch) (hd : Spec.defined i x) :
+    (∀ r, getReg (exec i len x) r = Spec.assign (Spec.effects i (x.reg.pc + len) x).regs (getReg x) r) ∧
+    (exec i len x).bus = Spec.store (Spec.effects i (x.reg.pc + len) x).mem x.bus :=
+  ⟨effects_regs i len x hd, effects_mem i len x hd⟩
+
+/-- whatever bytes are in memory, the decoded instruction is one `Spec.defined` accepts unless it is a
+    repeating block instruction or DAA (whose table decides) -/
+theorem C01_decoded_defined (bus : Bus) (pc : UInt16) (first : UInt8) (x : Arch)
+    (hr : (decode bus pc first).instr ∉ [Instr.ldir, .lddr, .cpir, .cpdr, .daa]) :
+    Spec.defined (decode bus pc first).instr x := by
+  have hw := decode_wf bus pc first
+  generalize (decode bus pc first).instr = i at hr hw
+  cases i <;> simp [wfInstr] at hw <;> simp at hr <;> simp [Spec.defined] <;> assumption
+
+/-- the same for a whole `execute` step of a running CPU with no request pending: the instruction is the
+    one decoded from the bytes at PC, `ret` is PC + its encoded length -/
+theorem C01_step (a : Arch) (h : a.quiet) :
+    let d := decode a.bus a.reg.pc (a.bus.readByte a.reg.pc)
+    Spec.defined d.instr a →
+    (∀ r, getReg (stepArch a).1 r = Spec.assign (Spec.effects d.instr (a.reg.pc + d.len) a).regs (getReg a) r) ∧
+    (stepArch a).1.bus = Spec.store (Spec.effects d.instr (a.reg.pc + d.len) a).mem a.bus := by
+  intro d hd
+  have e : (stepArch a).1 = { exec d.instr d.len a with int := none } := by
+    rw [stepArch_quiet a h]; exact dispatch_quiet a h
+  rw [e]
+  exact ⟨fun r => by
+    have := effects_regs d.instr d.len a hd r
+    rw [← this]; cases r <;> rfl, effects_mem d.instr d.len a hd⟩
+
+/-- LDI / LDD / CPI / CPD without the PC advance: the step the repeating forms iterate -/
+theorem C01_block_step (up : Bool) (ret : UInt16) (x : Arch) :
+    ((∀ r, getReg (ldStep up x) r = Spec.assign (Spec.effects (if up then .ldi else .ldd) ret x).regs (getReg x) r) ∧
+      (ldStep up x).bus = Spec.store (Spec.effects (if up then .ldi else .ldd) ret x).mem x.bus) ∧
+    ((∀ r, getReg (cpStep up x) r = Spec.assign (Spec.effects (if up then .cpi else .cpd) ret x).regs (getReg x) r) ∧
+      (cpStep up x).bus = x.bus) := by
+  cases up
+  · exact ⟨⟨fun r => by have := effects_regs .ldd 0 x trivial r; rwa [show exec .ldd 0 x = (ldStep false x).setPC _ from rfl, getReg_setPC] at this,
+            effects_mem .ldd 0 x trivial⟩,
+           ⟨fun r => by have := effects_regs .cpd 0 x trivial r; rwa [show exec .cpd 0 x = (cpStep false x).setPC _ from rfl, getReg_setPC] at this, rfl⟩⟩
+  · exact ⟨⟨fun r => by have := effects_regs .ldi 0 x trivial r; rwa [show exec .ldi 0 x = (ldStep true x).setPC _ from rfl, getReg_setPC] at this,
+            effects_mem .ldi 0 x trivial⟩,
+           ⟨fun r => by have := effects_regs .cpi 0 x trivial r; rwa [show exec .cpi 0 x = (cpStep true x).setPC _ from rfl, getReg_setPC] at this, rfl⟩⟩
+
+/-- the repeating block instructions leave the registers and the bus of that step iterated: BC times
+    (65,536 when BC = 0) for the loads, up to the first match or BC = 0 for the compares (C19) -/
+theorem C01_repeat (len : UInt16) (x : Arch) :
+    (∀ up : Bool, (∀ r, getReg (exec (if up then .ldir else .lddr) len x) r = getReg (iter (ldStep up) (blockCount x.reg.getBC) x) r) ∧
+      (exec (if up then .ldir else .lddr) len x).bus = (iter (ldStep up) (blockCount x.reg.getBC) x).bus) ∧
+    (∀ up : Bool, ∃ k, 0 < k ∧ k ≤ blockCount x.reg.getBC ∧
+      (∀ r, getReg (exec (if up then .cpir else .cpdr) len x) r = getReg (iter (cpStep up) k x) r) ∧
+      (exec (if up then .cpir else .cpdr) len x).bus = x.bus) := by
+  constructor
+  · intro up
+    cases up
+    · simp only [Bool.false_eq_true, ↓reduceIte]; rw [C19_lddr]; exact ⟨fun r => getReg_setPC _ _ r, rfl⟩
+    · simp only [↓reduceIte]; rw [C19_ldir]; exact ⟨fun r => getReg_setPC _ _ r, rfl⟩
+  · intro up
+    cases up
+    · obtain ⟨k, h0, h1, h2, _, _⟩ := C19_cpdr len x
+      refine ⟨k, h0, h1, ?_, ?_⟩
+      · intro r; simp only [Bool.false_eq_true, ↓reduceIte]; rw [h2]; exact getReg_setPC _ _ r
+      · simp only [Bool.false_eq_true, ↓reduceIte, exec, cpRepeat, Arch.setPC_bus]; exact cpLoop_bus _ _ _
+    · obtain ⟨k, h0, h1, h2, _, _⟩ := C19_cpir len x
+      refine ⟨k, h0, h1, ?_, ?_⟩
+      · intro r; simp only [↓reduceIte]; rw [h2]; exact getReg_setPC _ _ r
+      · simp only [↓reduceIte, exec, cpRepeat, Arch.setPC_bus]; exact cpLoop_bus _ _ _
 
 /-- non-vacuity: EX (SP),HL on a concrete state -/
 example :
     let x : Arch := { bus := { mem := #[0, 0, 0x34, 0x12] }, reg := { sp := 2, h := 0xAB, l := 0xCD } }
     (exec (.exSP .hl) 1 x).reg.getHL = 0x1234 ∧ (exec (.exSP .hl) 1 x).bus.mem = #[0, 0, 0xCD, 0xAB] ∧
     RegName.b ∉ regsWritten (.exSP .hl) := by decide
+
+/-- non-vacuity of C01_full: DAA after 0x15 + 0x27 = 0x3C is a row of the manual's table; the specification
+    says A becomes 0x42 -/
+example :
+    let x : Arch := { bus := { mem := #[0x27] }, reg := { a := 0x3C } }
+    Spec.defined .daa x ∧ (Spec.effects .daa 1 x).regs = [(.a, 0x42)] ∧ (exec .daa 1 x).reg.a = 0x42 :=
+  ⟨by show (Spec.daaTable _ _ _ _ _).isSome = true; decide, by decide, by decide⟩
 
 end Z80
